@@ -20,7 +20,8 @@ Range(s) == { s[i] : i \in 1 .. Len(s) }
 
 Visible(w, d) == { n \in NodeIds(w) : d = 0 \/ LevelBelow(w, 0, n) <= d }
 MemberRows(w, d) == UNION { { << "[./" \o RelPath(w, z) \o "] " \o w.nodes[z].zip[k].name, ToString(ContentLen(w.nodes[z].zip[k].content)),
-                              BoolText(w.nodes[z].zip[k].isdir), Str(ModeChars(w.nodes[z].zip[k].mode)), Stamp(w.nodes[z].zip[k].dos) >>
+                              BoolText(w.nodes[z].zip[k].isdir), Str(ModeChars(w.nodes[z].zip[k].mode)), Stamp(w.nodes[z].zip[k].dos),
+                              BoolText(Bit(w.nodes[z].zip[k].mode, 2048)), BoolText(Bit(w.nodes[z].zip[k].mode, 1024)) >>
                             : k \in 1 .. Len(w.nodes[z].zip) }
                           : z \in { n \in Visible(w, d) : w.nodes[n].iszip } }
 
